@@ -115,7 +115,7 @@ def gen_case(ctx, krylov):
     r = ctx.rng
     cplx = r.random() < 0.35
     g = C.RGen(r, krylov=krylov)
-    t = g.tree(r.randint(0, ctx.budget(2, 3)), None, cplx, maxn=4)
+    t = g.tree(r.choice([0, 1, 1, 2, 2, 2, 3] if ctx.tier != "thorough" else [0, 1, 2, 2, 3, 3, 4]), None, cplx, maxn=4)
     if krylov:
         name = r.choice(["lanczos", "lanczos", "arnoldi"])
     else:
@@ -193,9 +193,9 @@ def eval_coq(name, defs, shard=150):
 def run(ctx):
     fnd = findings()
     present = {f["flag"] for f in fnd if f["present"]}
-    n_struct = ctx.budget(260, 2400)
-    n_kry = ctx.budget(50, 400)
-    stats = dict(skipped_oracle_hyp=0, skipped_psd_annotation=0, near_tie_logabs0=0, expected_assert=0, flag_attributed=0,
+    n_struct = ctx.budget(420, 5000)
+    n_kry = ctx.budget(80, 800)
+    stats = dict(skipped_oracle_hyp=0, expected_assert=0, flag_attributed=0,
                  oracle_verified=0, krylov_cases=0, krylov_complex_trace_skipped=0, krylov_hyp_failed=0)
     mism = []
     cases, obs = [], []
@@ -219,8 +219,6 @@ def run(ctx):
         for d in C.decs(o["model"]):
             if d["which"] in ("lu", "chol") and d["resid"] > 1e-4 * (1 + np.abs(D).max()):
                 bad_dec = True
-            if d["which"] == "chol" and d["psd"]:
-                pass
         if bad_dec:
             stats["skipped_oracle_hyp"] += 1
             continue
@@ -343,6 +341,19 @@ def run(ctx):
     for c in cases:
         key = c["alg"] + "/" + c["trace"]
         algh[key] = algh.get(key, 0) + 1
+    perm_par, scal_sizes = dict(even=0, odd=0), {}
+
+    def walk(t):
+        if t["k"] == "Perm":
+            perm_par["odd" if np.linalg.det(C.dense(t)).real < 0 else "even"] += 1
+        if t["k"] == "Scal":
+            scal_sizes[str(t["n"])] = scal_sizes.get(str(t["n"]), 0) + 1
+        for x in t.get("ms", []):
+            walk(x)
+    for c in cases:
+        walk(c["recipe"])
+    lu_odd = sum(1 for o in obs for d in (C.decs(o["model"]) if "model" in o else []) if d["which"] == "lu" and np.linalg.det(np.eye(len(d["p"]))[d["p"]]) < 0)
+    lu_all = sum(1 for o in obs for d in (C.decs(o["model"]) if "model" in o else []) if d["which"] == "lu")
     lneg = sum(1 for r_ in info if r_["oracle"][1] < 0)
     sneg = sum(1 for r_ in info if r_["real"] and r_["oracle"][0].real < 0)
     distinct = len({core.digest(c["recipe"]) for c in cases if C.rdepth(c["recipe"]) >= 2 or c["recipe"]["k"] in ("Generic", "Perm", "Tri", "Scal")})
@@ -355,4 +366,25 @@ def run(ctx):
         mismatches=mism, findings=fnd,
         extra=dict(kind_histogram=hist, alg_histogram=algh, compared_in_coq=len(idx_impl) + len(idx_k), repaired_model_vs_oracle=len(idx_orc),
                    complex_cases=sum(1 for r_ in info if not r_["real"]), logabs_negative=lneg, real_sign_negative=sneg,
+                   permutation_leaves=perm_par, scalar_leaf_sizes=scal_sizes, lu_decorations=lu_all, lu_odd_pivot_permutations=lu_odd,
+                   max_size=max(c["N"] for c in cases), depth_histogram={str(d): sum(1 for c in cases if C.rdepth(c["recipe"]) == d) for d in range(1, 6)},
                    kronecker_nonsquare_factors=outside_quantifier(), **stats))
+
+
+def replay(ctx, payload):
+    """./check C07 --replay f : re-run the recorded witness (a flag probe or a recipe) on the implementation against the oracle"""
+    if payload.get("flag"):
+        f = [x for x in findings() if x["flag"] == payload["flag"]]
+        for x in f:
+            print(f"flag={x['flag']} present={x['present']} witness={x['witness']} got={x['got']} expected={x.get('expected')}")
+        return 1 if any(x["present"] for x in f) else 0
+    bad = 0
+    for c in ([payload["case"]] if payload.get("case") else [m.get("case") for m in payload.get("cases", [])]):
+        if not c or "recipe" not in c:
+            continue
+        o = run_impl(c)
+        os_, ol = np.linalg.slogdet(C.dense(c["recipe"]))
+        print(f"alg={c['alg']}/{c['trace']} implementation: sign={o.get('sign')} logabs={o.get('logabs')} err={o.get('err')}   numpy oracle: sign={os_} logabs={ol}")
+        if not o.get("ok") or abs(o["sign"] - os_) > 1e-3 or abs(o["logabs"] - ol) > 1e-3 * max(1, abs(ol)):
+            bad = 1
+    return bad
